@@ -13,6 +13,9 @@ func HarnessC19Skip(api int) {
 		pos := 3 + 2*k
 		s.pkts = append(append(append([][]byte{}, s.pkts[:pos]...), refEncodePacket(m)), s.pkts[pos:]...)
 	}
+	// a packet without adaptation field right behind packets that carry one (a full-payload PES packet on another PID)
+	full := mkPESPattern(0x101, 170, true, 6)
+	s.add(full, packetize(full, 9, 184, false))
 	var keep []byte
 	var decisions []bool
 	for _, p := range s.pkts {
@@ -35,7 +38,7 @@ func HarnessC19Skip(api int) {
 	}
 	dmx := NewDemuxer(vCtx{}, newVReader(s.bytes()), DemuxerOptPacketSize(188), DemuxerOptPacketSkipper(skipper))
 	ref := NewDemuxer(vCtx{}, newVReader(keep), DemuxerOptPacketSize(188))
-	for k := 0; k < 14; k++ {
+	for k := 0; k < 16; k++ {
 		if api == 0 {
 			p, err := dmx.NextPacket()
 			q, err2 := ref.NextPacket()
@@ -43,7 +46,7 @@ func HarnessC19Skip(api int) {
 			if err != nil {
 				break
 			}
-			vassert("C19.skip.packet.same", p.Header == q.Header && vBytesEq(p.Payload, q.Payload))
+			vassert("C19.skip.packet.same", p.Header == q.Header && vBytesEq(p.Payload, q.Payload) && (p.AdaptationField == nil) == (q.AdaptationField == nil))
 		} else {
 			d, err := dmx.NextData()
 			e, err2 := ref.NextData()
